@@ -87,7 +87,7 @@ def results_standard(mon, fs, job):
         i = int(bad[0])
         V("stored-logP!=model", f"{bad.size} rows, first {i}: "
           f"{nested['logP'][i]!r} vs {lp_ref[i]!r}")
-    if not np.all(model.in_bounds(nested)):
+    if not np.all(model.ref_in_bounds(nested)):
         V("returned-sample-out-of-bounds", "")
     # birth likelihoods
     lb = np.asarray(d["logL_birth"], dtype=float)
